@@ -32,7 +32,7 @@ ASSUMPTIONS = [
     "the interpreter vf/models/dsl.py and the generator's well-foundedness construction are the trusted base",
     "float comparison 1e-9 x size of terms; sentinels must agree up to numerically-zero arrays",
 ]
-BUDGET = {"quick": dict(cases=4000, seconds=75), "thorough": dict(cases=60000, seconds=540)}
+BUDGET = {"quick": dict(cases=4000, seconds=300), "thorough": dict(cases=60000, seconds=540)}
 CASE_TIMEOUT = 120
 MONITORS = {"product": True, "solvers": False}
 MONITOR_VERDICTS = ("pending", "product")
